@@ -52,7 +52,7 @@ def load_known(pid):
             line = line.strip()
             if not line or line.startswith('#'):
                 continue
-            m = re.match(r'known: property=(\S+) obligation=(\S+) witness=(.*?) -- (.*)$', line)
+            m = re.match(r'known: property=(\S+) obligation=(.+?) witness=(.*?) -- (.*)$', line)
             if m and m.group(1) == pid:
                 known.append({'obligation': m.group(2), 'witness': m.group(3).strip(), 'text': m.group(4)})
             m = re.match(r'fixed: property=(\S+) (\S+) (.*)$', line)
